@@ -636,7 +636,7 @@ class Gen:
     def taxes(self, cc, allow_included_safe=False):
         rng = self.rng
         if cc == "ES":
-            k = rng.randrange(18)
+            k = rng.randrange(18 if getattr(self, "calc_only", False) else 16)   # 16, 17: documents that calculate but do not validate
             if k >= 16:     # a rate KEY that fixes no value (country without a regime): rows with the same key and different
                             # percentages - or one of them exempt - are different groups
                 t = {"cat": "VAT", "country": rng.choice(["JP", "JP", "SE"]), "rate": rng.choice(["reduced", "reduced", "standard"])}
